@@ -404,6 +404,8 @@ def v_abs(a):
 F_EXP = z3.Function("exp", z3.RealSort(), z3.RealSort())
 F_LOG = z3.Function("log", z3.RealSort(), z3.RealSort())
 F_POW = z3.Function("pow", z3.RealSort(), z3.RealSort(), z3.RealSort())
+F_SIN = z3.Function("sine", z3.RealSort(), z3.RealSort())
+PI = z3.Real("pi!const")       # constrained to 3.14159 < pi < 3.1416 by the solver front end
 
 
 def v_exp(a):
